@@ -3,6 +3,7 @@ package format
 
 import (
 	"archive/zip"
+	"encoding/xml"
 	"io"
 	"path/filepath"
 	"strings"
@@ -198,6 +199,15 @@ func detectZIPFormat(r io.ReaderAt, size int64) (Format, error) {
 		return Unknown, err
 	}
 
+	// An OOXML package names its main part in _rels/.rels. That decides, not the first word/,
+	// xl/ or ppt/ entry, a META-INF/container.xml part or a "mimetype" part that is not the
+	// first member (a first-member mimetype is how ODF and EPUB packages declare themselves).
+	if len(zr.File) > 0 && zr.File[0].Name != "mimetype" {
+		if f := ooxmlMainPart(zr); f != Unknown {
+			return f, nil
+		}
+	}
+
 	// Check for OpenDocument Format and EPUB first (both have mimetype file at the start)
 	for _, f := range zr.File {
 		if f.Name == "mimetype" {
@@ -240,4 +250,38 @@ func detectZIPFormat(r io.ReaderAt, size int64) (Format, error) {
 	}
 
 	return Unknown, nil
+}
+
+// ooxmlMainPart returns the format of the part that _rels/.rels names as the package's
+// officeDocument (the main part of an OOXML package), or Unknown.
+func ooxmlMainPart(zr *zip.Reader) Format {
+	var rels struct {
+		Relationship []struct {
+			Type   string `xml:"Type,attr"`
+			Target string `xml:"Target,attr"`
+		}
+	}
+	for _, f := range zr.File {
+		if f.Name == "_rels/.rels" {
+			if rc, err := f.Open(); err == nil {
+				_ = xml.NewDecoder(io.LimitReader(rc, 1<<20)).Decode(&rels)
+				rc.Close()
+			}
+			break
+		}
+	}
+	for _, r := range rels.Relationship {
+		if !strings.HasSuffix(r.Type, "/officeDocument") {
+			continue
+		}
+		switch target := strings.TrimPrefix(r.Target, "/"); {
+		case strings.HasPrefix(target, "word/"):
+			return DOCX
+		case strings.HasPrefix(target, "xl/"):
+			return XLSX
+		case strings.HasPrefix(target, "ppt/"):
+			return PPTX
+		}
+	}
+	return Unknown
 }
